@@ -71,7 +71,7 @@ pub open spec fn enc_obj(o: Object) -> Seq<u8> decreases o {
         Object::Null => KW_NULL(),
         Object::Boolean(b) => if b { KW_TRUE() } else { KW_FALSE() },
         Object::Integer(v) => dec_int(v as int),
-        Object::Real(v) => fmt_f32(v),
+        Object::Real(v) => enc_real(v),
         Object::Name(n) => enc_name(n@),
         Object::String(t, f) => match f { StringFormat::Literal => enc_lit(t@), StringFormat::Hexadecimal => enc_hex(t@) },
         Object::Array(a) => enc_array(a@),
@@ -336,6 +336,17 @@ pub proof fn lemma_entries_mono(e: Seq<(Vec<u8>, Object)>, i: int, j: int)
 // =====================================================================================
 // fmt shims (R3): one per format literal, contract written from the std::fmt grammar
 // =====================================================================================
+// R5: `value.fract() == 0.0 && value.abs() >= 9.223372e18` (f32 arithmetic is outside the verifier): an integral value
+// whose `{}` spelling has no decimal point and does not fit an i64
+pub uninterp spec fn real_needs_point(v: f32) -> bool;
+#[verifier::external_body]
+pub fn f32_integral_beyond_i64(v: f32) -> (r: bool) ensures r == real_needs_point(v) { unimplemented!() }
+pub open spec fn enc_real(v: f32) -> Seq<u8> { if real_needs_point(v) { fmt_f32(v) + seq![0x2eu8, 0x30u8] } else { fmt_f32(v) } }
+// LIT fmt_b4c25179: "{}.0"
+#[verifier::external_body]
+pub fn fmt_b4c25179<W: Write>(file: &mut W, v: &f32) -> (r: Result<()>)
+    ensures wrote(*old(file), *final(file), r is Ok, fmt_f32(*v) + seq![0x2eu8, 0x30u8])
+{ unimplemented!() }
 // LIT fmt_bf21a9e8: "{}"
 #[verifier::external_body]
 pub fn fmt_bf21a9e8<W: Write>(file: &mut W, v: &f32) -> (r: Result<()>)
@@ -420,7 +431,7 @@ pub open spec fn enc_s(o: SObj) -> Seq<u8> decreases o {
         SObj::Null => KW_NULL(),
         SObj::Boolean(b) => if b { KW_TRUE() } else { KW_FALSE() },
         SObj::Integer(v) => dec_int(v as int),
-        SObj::Real(v) => fmt_f32(v),
+        SObj::Real(v) => enc_real(v),
         SObj::Name(n) => enc_name(n),
         SObj::String(t, f) => match f { StringFormat::Literal => enc_lit(t), StringFormat::Hexadecimal => enc_hex(t) },
         SObj::Array(a) => seq![0x5bu8] + enc_s_items(a, a.len() as int) + seq![0x5du8],
